@@ -98,6 +98,28 @@ text = d.read_text()
 a, b = "<!-- BEGIN GENERATED STATUS -->", "<!-- END GENERATED STATUS -->"
 if a in text:
     text = text[: text.index(a) + len(a)] + "\n" + block + "\n" + text[text.index(b):]
+    # ---- fix: commits of /repo with the findings they repaired
+    import subprocess
+    log = subprocess.run("git -C /repo log --reverse --format='%h\t%s'", shell=True, capture_output=True, text=True).stdout
+    byhash = {}
+    for pp in props:
+        kf = V / "known_findings" / f"{pp['id']}.json"
+        if kf.exists():
+            for e in json.loads(kf.read_text()).get("findings", []):
+                if e.get("status") == "fixed":
+                    h = fix_commit(e)
+                    byhash.setdefault(h[:7], []).append(e["id"])
+    rows = ["| commit | repaired findings | subject |", "|---|---|---|"]
+    nfix = 0
+    for line in log.splitlines():
+        h, subj = line.split("\t", 1)
+        if subj.startswith("fix:"):
+            nfix += 1
+            rows.append("| %s | %s | %s |" % (h, ", ".join(byhash.get(h[:7], [])) or "-", subj[4:].strip().replace("|", "/")))
+    fixblock = "\n".join(rows) + "\n\n%d `fix:` commits." % nfix
+    fa, fb = "<!-- BEGIN GENERATED FIXES -->", "<!-- END GENERATED FIXES -->"
+    if fa in text:
+        text = text[: text.index(fa) + len(fa)] + "\n" + fixblock + "\n" + text[text.index(fb):]
     ia, ib = "<!-- BEGIN GENERATED INVENTORY -->", "<!-- END GENERATED INVENTORY -->"
     if ia in text:
         text = text[: text.index(ia) + len(ia)] + "\n" + invblock + "\n" + text[text.index(ib):]
